@@ -172,7 +172,7 @@ def run_unit(u):
                     continue
                 try:
                     f = gp.parse(text)
-                    gl = (len(f), etree(g, opmap, f[0]))
+                    gl = (f.solutions, etree(g, opmap, f[0]))
                 except Exception as e:
                     gl = (0, type(e).__name__)
                 q = b.add("climb", len(table), [[pr, 1 if lf else 0] for pr, lf in table], len(toks), toks)
